@@ -588,5 +588,5 @@ def _iap_unit(nsec, tier, timeout):
                 note="InteractionApplier: failure leaves energy/status/deposition/secondaries untouched and requests a zero step with the failure action; otherwise E' = result.energy, killed iff absorbed, deposition += local deposit + sum over sub-cut secondaries of (kinetic energy + 2mc^2 iff the SECONDARY is an antiparticle) in lock-step; cut secondaries cleared, others untouched")
 
 
-NPART_UNWIND = 10
-UNITS += [_iap_unit(4, "quick", 900), _iap_unit(8, "thorough", 7200)]
+NPART_UNWIND = 18
+UNITS += [_iap_unit(8, "quick", 900), _iap_unit(16, "thorough", 7200)]
